@@ -79,6 +79,30 @@ CORE = [
       {'op': 'change_meta', 'app': 'app1', 'model': 'A',
        'prop': 'index_together',
        'value': [['b', 'a'], ['c', 'b'], ['c', 'a'], ['d', 'c']]}]),
+    ({'indexes': [{'fields': ['a'], 'name': 'ix_a'},
+                  {'fields': ['b'], 'name': 'ix_b'},
+                  {'fields': ['c', 'a'], 'name': 'ix_ca'},
+                  {'fields': ['d'], 'name': 'ix_d'}]},
+     [{'op': 'change_meta', 'app': 'app1', 'model': 'A', 'prop': 'indexes',
+       'value': [{'fields': ['a'], 'name': 'ix_a'},
+                 {'fields': ['a', 'b'], 'name': 'ix_ab2'},
+                 {'fields': ['b', 'c'], 'name': 'ix_bc2'},
+                 {'fields': ['c'], 'name': 'ix_c2'},
+                 {'fields': ['d', 'a'], 'name': 'ix_da2'}]}]),
+    ({},
+     [{'op': 'change_meta', 'app': 'app1', 'model': 'A', 'prop': 'indexes',
+       'value': [{'fields': ['a', 'b'], 'name': 'jx_ab'},
+                 {'fields': ['b'], 'name': 'jx_b'},
+                 {'fields': ['c', 'd'], 'name': 'jx_cd'},
+                 {'fields': ['d'], 'name': 'jx_d'}]},
+      {'op': 'change_meta', 'app': 'app1', 'model': 'A',
+       'prop': 'constraints',
+       'value': [{'type': 'unique', 'fields': ['a', 'c'], 'name': 'uq_ac'},
+                 {'type': 'unique', 'fields': ['b', 'd'], 'name': 'uq_bd'},
+                 {'type': 'check', 'check': ['gte', 'a', 0],
+                  'name': 'ck_a'},
+                 {'type': 'check', 'check': ['gte', 'b', 0],
+                  'name': 'ck_b'}]}]),
 ]
 
 
@@ -157,7 +181,22 @@ def run_case(desc):
     if desc['mode'] == 'core':
         h = core_history(desc['i'])
     else:
-        h = histories.gen_upgrade(rng, two_apps=two, with_new_model=False)
+        # two apps, one of them also gains a brand-new model that one of
+        # its pending evolutions names: created in its final form, every
+        # mutation for it is filtered out
+        fresh_model = two and rng.random() < 0.5
+        h = histories.gen_upgrade(rng, two_apps=two,
+                                  with_new_model=fresh_model)
+        if fresh_model:
+            for a, mods in h.specs[1].items():
+                if 'NewModel' in mods:
+                    h.texts[0].setdefault(a, []).append(
+                        "AddField('NewModel', 'q2', models.CharField, "
+                        "max_length=20, null=True)")
+                    if not [t for t in h.texts[0][a]
+                            if 'NewModel' not in t]:
+                        # the app's evolution holds nothing else
+                        pass
     apps = ('app1', 'app2') if two else ('app1',)
     key = S.canon([h.specs, h.steps])
     items, stats = [], {'upgrades': 1, 'processes': 0}
